@@ -79,6 +79,28 @@ def gen_chain(src, opts):
             continue
         if op == "add":
             other = gauss_leaf(g, avail)
+            if g.chance(0.4) and len(reals) <= 3:
+                # the same inputs in another order (real and batch inputs permuted independently)
+                other = gauss_leaf(g, avail, real_names=g.perm(reals))
+                own_ints = [n for n in ints]
+                if own_ints and set(own_ints) != {n for n, s_ in other[1]}:
+                    pi = g.perm(own_ints)
+                    order, a_, b_ = [], list(pi), [n for n, sh in other[2]]
+                    while a_ or b_:
+                        if a_ and (not b_ or g.chance(0.5)):
+                            order.append(a_.pop(0))
+                        else:
+                            order.append(b_.pop(0))
+                    nb = g.numel([g.sizes.get(n, inp[n][0]) for n in pi])
+                    D = sum(numel(sh) for n, sh in other[2])
+                    rank = other[4]
+                    S_, W_ = [], []
+                    for _b in range(nb):
+                        off = g.expand(SVALS, D * rank)
+                        dg = g.expand(DIAG, D)
+                        S_.extend(dg[i] if i == j else off[i * rank + j] for i in range(D) for j in range(rank))
+                        W_.extend(g.expand(WVALS, rank))
+                    other = ("gauss", tuple((n, inp[n][0]) for n in pi), other[2], tuple(order), rank, tuple(W_), tuple(S_))
             node = ("bin", "add", node, other) if g.chance(0.5) else ("bin", "add", other, node)
         elif op == "minus":
             node = ("bin", "sub", node, gauss_leaf(g, avail))
